@@ -252,6 +252,14 @@ def conditions(prog, fn):
             c = ("is_empty", cn.op(o.data["args"][0], o.block), None)
         if c:
             out.append((sw["block"], sw["true"], sw["false"], c))
+    # `match v { 0 => .., n => .. }`: an integer switch with a 0 arm is the comparison v == 0
+    for b, blk in enumerate(fn.blocks):
+        t = blk["term"]
+        if blk["cleanup"] or not t or t["t"] != "switch" or t["dty"] in ("bool", "isize") or t["otherwise"] is None:
+            continue
+        zero = [bb for v, bb in t["targets"] if v == "0"]
+        if len(zero) == 1 and len(t["targets"]) == 1 and not str(t["dty"]).startswith("i"):
+            out.append((b, zero[0], t["otherwise"], ("Eq", cn.op(t["discr"], b), ("c", 0))))
     return out
 
 
